@@ -1425,6 +1425,11 @@ class Engine:
     def typeinfo_chain(self, name):
         """names of typeinfo globals that `name` is or derives from"""
         out = [name]
+        # libstdc++'s own exception classes are external to the slice: their hierarchy is fixed by the standard
+        cur = name
+        while cur in STD_EXC_BASE:
+            cur = STD_EXC_BASE[cur]
+            out.append(cur)
         g = self.mod.globals.get(name)
         seen = set(out)
         stack = [g]
@@ -1491,6 +1496,18 @@ class Engine:
             first = False
         st.notes.append("uncaught exception " + str(ti))
         raise PathEnd("uncaught-exception:" + str(ti))
+
+
+STD_EXC_BASE = {
+    "_ZTISt12out_of_range": "_ZTISt11logic_error", "_ZTISt12length_error": "_ZTISt11logic_error",
+    "_ZTISt16invalid_argument": "_ZTISt11logic_error", "_ZTISt12domain_error": "_ZTISt11logic_error",
+    "_ZTISt11logic_error": "_ZTISt9exception",
+    "_ZTISt11range_error": "_ZTISt13runtime_error", "_ZTISt14overflow_error": "_ZTISt13runtime_error",
+    "_ZTISt15underflow_error": "_ZTISt13runtime_error", "_ZTISt12system_error": "_ZTISt13runtime_error",
+    "_ZTINSt8ios_base7failureB5cxx11E": "_ZTISt12system_error", "_ZTISt13runtime_error": "_ZTISt9exception",
+    "_ZTISt20bad_array_new_length": "_ZTISt9bad_alloc", "_ZTISt9bad_alloc": "_ZTISt9exception",
+    "_ZTISt8bad_cast": "_ZTISt9exception", "_ZTISt10bad_typeid": "_ZTISt9exception", "_ZTISt13bad_exception": "_ZTISt9exception",
+}
 
 
 def P_dem(n):
